@@ -35,6 +35,13 @@ def enum_const_table(facts, fn, adt):
         if var is None:
             raise AnalysisError("%s: return path not selected by the discriminant of self" % fn.name)
         r = strip_refs(lf.ret())
+        to_bytes = False
+        while r[0] == "call" and r[1].split("::")[0] in ("std", "core", "alloc") and r[1].rsplit("::", 1)[-1] in ("as_bytes", "as_str", "as_ref") and len(r[2]) == 1:
+            # `self.name().as_bytes()` with name() traversed inline
+            to_bytes = to_bytes or r[1].rsplit("::", 1)[-1] == "as_bytes"
+            r = strip_refs(r[2][0])
+        if r[0] == "const" and to_bytes and isinstance(r[1], str):
+            r = ("const", r[1].encode())
         if r[0] != "const":
             raise AnalysisError("%s: arm %s does not return a constant (%r)" % (fn.name, var, r[0]))
         if var in table and table[var] != r[1]:
@@ -147,10 +154,13 @@ def byte_matcher_language(facts, fn):
     return accept, inexact
 
 
-def string_matcher(facts, fn, folds=None):
-    """For a matcher that compares one derived string against constants with PartialEq::eq:
+def string_matcher(facts, fn, folds=None, info=None, adt=None):
+    """For a matcher that compares one derived string against constants with PartialEq::eq (or, case-insensitively
+    for ASCII, with eq_ignore_ascii_case -- then info["ci"] is set and the table is keyed by the lower-cased constant):
     returns (table {const: variant-or-shape}, subject term, list of leaves).
-    folds: {path of a table function: {variant: constant}} -- `X::as_str(Variant)` on the constant side is its table entry."""
+    folds: {path of a table function: {variant: constant}} -- `X::as_str(Variant)` on the constant side is its table entry.
+    adt: when the Ok payload is not a literal variant but a value whose discriminant the path has tested (an item of a
+    table the function loops over), the variant is read off that test."""
     leaves = PathEnum(fn, facts, lower=True).run()
 
     def const_side(y):
@@ -163,9 +173,16 @@ def string_matcher(facts, fn, folds=None):
                 return folds[y[1]][a[2]]
         return None
 
+    def peel(y):
+        y = strip_refs(y)
+        while y[0] == "call" and y[1].split("::")[0] in ("std", "core", "alloc") and y[1].rsplit("::", 1)[-1] in ("as_bytes", "as_str", "as_ref") and len(y[2]) == 1:
+            y = strip_refs(y[2][0])
+        return y
+
     table = {}
     subjects = []
     other_ok = []
+    discr = facts.variant_discr(adt) if adt else {}
     for lf in leaves:
         if lf.kind != "return":
             continue
@@ -173,21 +190,33 @@ def string_matcher(facts, fn, folds=None):
         if kind != "Ok":
             continue
         hit = None
+        ci = False
         for (t, c, _bb) in lf.conds:
-            if t[0] == "call" and t[1].endswith("PartialEq::eq"):
+            is_eq = t[0] == "call" and t[1].endswith("PartialEq::eq")
+            is_ci = t[0] == "call" and t[1].rsplit("::", 1)[-1] == "eq_ignore_ascii_case" and len(t[2]) == 2
+            if is_eq or is_ci:
                 truth = (c == ("ne", (0,))) or (c[0] == "eq" and c[1] != 0)
                 x, y = t[2]
                 if truth and const_side(y) is not None:
-                    hit = (strip_refs(x), const_side(y))
+                    hit, ci = (peel(x) if is_ci else strip_refs(x), const_side(y)), is_ci
                 elif truth and const_side(x) is not None:
-                    hit = (strip_refs(y), const_side(x))
+                    hit, ci = (peel(y) if is_ci else strip_refs(y), const_side(x)), is_ci
         if hit is None:
             other_ok.append(lf)
             continue
         subj, const = hit
+        if ci:
+            if info is not None:
+                info["ci"] = True
+            const = const.lower() if isinstance(const, (str, bytes)) else const
         if subj not in subjects:
             subjects.append(subj)
-        table[const] = variant_of(payload) or payload
+        var = variant_of(payload)
+        if var is None and adt and payload is not None:
+            for (t, c, _bb) in lf.conds:
+                if t[0] == "discr" and strip_refs(t[1]) == strip_refs(payload) and c[0] == "eq":
+                    var = discr.get(c[1])
+        table[const] = var or payload
     return table, subjects, other_ok
 
 
@@ -245,4 +274,61 @@ def eval_bytes(facts, t, depth=0):
             if isinstance(v, str):
                 return v.encode()
             return v if isinstance(v, bytes) else None
+    return None
+
+
+def table_search(facts, fn, adt, leaf=None):
+    """A parser written as a search of a table of values for the one whose spelling matches the input:
+        TABLE.iter().copied().find(|v| v.raw() == bytes).ok_or(err)
+        TABLE.into_iter().find(|v| key.eq_ignore_ascii_case(v.name())).ok_or_else(..)
+    TABLE an array literal of field-less variants or a constant array of them.  Returns None, or a dict:
+    variants (in table order), mode ('exact' | 'ascii-ci'), subject (the captured term compared), item_fn (path of
+    the spelling function applied to the item), conds (of the leaf that returns the search result)."""
+    from .rules.util import look, is_call, last_seg
+    leaves = [leaf] if leaf is not None else [l for l in PathEnum(fn, facts).run() if l.kind == "return"]
+    for lf in leaves:
+        r = look(lf.ret())
+        while r[0] == "agg" and r[2] == "Ok" and r[3]:
+            r = look(r[3][0])
+        if not (is_call(r, "ok_or", "ok_or_else") and r[2]):
+            continue
+        fd = look(r[2][0])
+        while fd[0] == "mut" or is_call(fd, "copied", "cloned"):
+            fd = look(fd[1]) if fd[0] == "mut" else look(fd[2][0])
+        if not (is_call(fd, "find") and len(fd[2]) == 2):
+            continue
+        it = look(fd[2][0])
+        while it[0] == "mut" or is_call(it, "copied", "cloned", "into_iter", "iter"):
+            it = look(it[1]) if it[0] == "mut" else look(it[2][0])
+        discr = facts.variant_discr(adt)
+        if it[0] == "const" and isinstance(it[1], bytes):
+            variants = [discr.get(b) for b in it[1]]
+        elif it[0] == "array":
+            variants = [x[2] if x[0] == "agg" and x[1] == adt else None for x in it[1]]
+        else:
+            continue
+        if not variants or None in variants:
+            continue
+        clo = look(fd[2][1])
+        if not (clo[0] == "closure" and clo[1] in facts.fns and len(clo[2]) == 1):
+            continue
+        cap = look(clo[2][0])
+        modes, fns = set(), set()
+        good = True
+        for l2 in PathEnum(facts.fns[clo[1]], facts).run():
+            rr = look(l2.ret())
+            ok = False
+            if rr[0] == "call" and len(rr[2]) == 2 and (rr[1].endswith("PartialEq::eq") or last_seg(rr[1]) == "eq_ignore_ascii_case"):
+                for a, b in ((rr[2][0], rr[2][1]), (rr[2][1], rr[2][0])):
+                    a, b = look(a), look(b)
+                    item_ok = a[0] == "call" and a[1] in facts.fns and len(a[2]) == 1 and look(a[2][0]) in (("arg", 2), ("deref", ("arg", 2)))
+                    cap_ok = b[0] == "field" and look(b[1]) == ("arg", 1) and b[3] == "0"
+                    if item_ok and cap_ok:
+                        ok = True
+                        modes.add("ascii-ci" if last_seg(rr[1]) == "eq_ignore_ascii_case" else "exact")
+                        fns.add(a[1])
+            good = good and ok
+        if not good or len(modes) != 1 or len(fns) != 1:
+            continue
+        return {"variants": variants, "mode": modes.pop(), "subject": cap, "item_fn": fns.pop(), "conds": lf.conds, "leaf": lf}
     return None
